@@ -1,4 +1,5 @@
 import TantivyModel.Proofs.CommitProtocol
+import TantivyModel.Proofs.Storage
 /-!
 # C01 — Commit is atomic and durable across a crash at any instant
 
@@ -419,5 +420,94 @@ example : Disciplined afterCommit1
     (commitOps [1, 2] ⟨0, 3, 12, [0, 2, 3]⟩ [(3, 7)] ⟨2, 4, 50, [3]⟩ [2]) = false := by decide
 example : Disciplined afterCommit1
     (commitOps [1, 2, 1] ⟨0, 3, 12, [0, 2, 3]⟩ [(3, 7)] ⟨2, 4, 50, [3]⟩ [2]) = true := by decide
+
+/-! ## every run of the writer model is disciplined (all rules, merges included) -/
+
+/-- shape of `save_metas` after the repair: at least one `sync_directory` also follows the
+`atomic_write(meta.json)`. Decided on the extracted call list. -/
+theorem C01_save_metas_syncs_around_write :
+    ∃ a, a < 4 ∧ ∃ b, b < 4 ∧
+      Gen.SAVE_METAS_CALLS = List.replicate a 1 ++ [1, 2] ++ List.replicate (b + 1) 1 := by
+  decide
+
+/-- **the full discipline holds for every run of the writer model**: for every state whose newest
+`meta.json` is durable (`Synced`: true after `Index::create` and after every event), and EVERY
+sequence of writer events — segment flushes of workers and merge threads, commits, `end_merge`s
+of committed segments (with their own `save_metas` + collection), explicit collections, in any
+order and number, which is what any merge policy or policy switch can produce — whose local side
+conditions hold, the issued storage operations break NONE of D0–D4. With
+`C01_recover_disciplined` this gives crash-atomicity for every such run.
+This lifts `C01_protocol_disciplined_partial` (one commit, without D3) to all event sequences
+and all rules, for `save_metas` as EXTRACTED from the source. -/
+theorem C01_writer_runs_disciplined (s : PState) (hs : Synced s) (evs : List WEv) :
+    ∃ a b, Gen.SAVE_METAS_CALLS = List.replicate a 1 ++ [1, 2] ++ List.replicate (b + 1) 1 ∧
+      (WRun a b s evs → Disciplined s (evs.flatMap (WEv.ops a b)) = true) := by
+  obtain ⟨a, _, b, _, h⟩ := C01_save_metas_syncs_around_write
+  exact ⟨a, b, h, wrun_disciplined a b s hs evs⟩
+
+/-- … and therefore every crash image at every point of every such run recovers a commit
+between the last acknowledged and the last started one, with all its files sealed. -/
+theorem C01_writer_runs_recover (s : PState) (hi : Inv s) (hs : Synced s) (a b : Nat) (evs : List WEv)
+    (hr : WRun a b s evs) (k : Nat) (img : Image)
+    (hc : CrashImage (s.dir.run ((evs.flatMap (WEv.ops a b)).take k)) img) :
+    ∃ j, recover img = some j ∧ lastAcked s.acked ((evs.flatMap (WEv.ops a b)).take k) ≤ j ∧
+      j ≤ lastStarted s.started ((evs.flatMap (WEv.ops a b)).take k) := by
+  obtain ⟨j, h1, h2, h3, _⟩ :=
+    C01_recover_disciplined s hi _ (wrun_disciplined a b s hs evs hr) k img hc
+  exact ⟨j, h1, h2, h3⟩
+
+theorem C01_created_synced : Synced PState.created := ⟨⟨0, 0, 0, []⟩, by decide⟩
+
+/-- non-vacuity: flush, commit, flush of a merge thread + end_merge (same opstamp), collection -/
+example : WRun 0 0 PState.created
+    [ .flush ⟨0, 1, 9, [0, 2]⟩ [(2, 10)],
+      .commit ⟨0, 2, 9, [0, 2, 3]⟩ [(3, 4)] ⟨5, 3, 50, [2, 3]⟩ [],
+      .flush ⟨0, 4, 9, [0, 2, 3, 4]⟩ [(4, 14)],
+      .endMerge ⟨0, 5, 9, [0, 2, 3, 4]⟩ [] ⟨5, 6, 40, [4]⟩ [2, 3],
+      .gc ⟨0, 7, 9, [0, 4]⟩ [] ] := by
+  simp [WRun, WOk, freshFiles, WEv.ops, coreOps, writeAll, writeFileOps, syncs, PState.created, PState.run,
+    PState.step, Dir.step, Dir.empty, upd, FileSt.ready, FileSt.sync, metaCands, AtomSt.cands, AtomSt.sync,
+    AtomSt.visible, META, MANAGED]
+
+/-! ## the enumerated crash images are crash images -/
+
+/-- **`quickImages ⊆ CrashImage`**: every image the model's enumerator hands to the harness
+(all applied, all lost, each single un-synced create / unlink / rename flipped, truncations) is
+allowed by the fault model, at every point of every operation log — proved, no longer only
+self-checked at run time. So every image the real `Index::open` is tried on is one the theorems
+speak about. -/
+theorem C01_quick_images_are_crash_images (t : List Op) (ni : NamedImage)
+    (h : ni ∈ quickImages (Dir.empty.run t)) : CrashImage (Dir.empty.run t) ni.img.toImage :=
+  quickImages_sound _ (cover_empty.run t) ni h
+
+example : 3 < (quickImages (Dir.empty.run ([Op.syncDir, .atomicWrite META ⟨0, 0, 0, []⟩, .syncDir] ++ demoTrace.take 30))).length := by
+  decide
+
+/-- **what is recovered is one written `meta.json`, whole**: along a disciplined trace, the
+`meta.json` found after any crash is — payload for payload — either one the initial state could
+already leave or one that an `atomic_write(meta.json)` of the trace prefix wrote (never a mix of
+two, never a torn one), and every file it references is present and sealed: the recovered index
+exposes exactly the segments, hence the documents, of that one `save_metas`. -/
+theorem C01_recovered_meta_was_written (s0 : PState) (h0 : Inv s0) (t : List Op)
+    (hd : Disciplined s0 t = true) (k : Nat) (img : Image)
+    (hi : CrashImage (s0.dir.run (t.take k)) img) :
+    ∃ m, img.atom META = some m ∧ recover img = some m.commit ∧
+      (m ∈ metaCands s0 ∨ Op.atomicWrite META m ∈ t.take k) ∧ ∀ p ∈ m.refs, sealedIn img p = true := by
+  have hinv := h0.run _ (disciplined_take s0 t k hd)
+  rw [← run_dir] at hi
+  obtain ⟨m, hmc, hme, hrec, hfiles⟩ := hinv.recover img hi
+  refine ⟨m, hme, hrec, cands_written s0 (t.take k) m hmc, ?_⟩
+  intro p hp
+  simp [sealedIn, hfiles p hp]
+
+/-- from the state after `Index::create`, every run of the writer model, every crash point -/
+theorem C01_writer_runs_recover_from_created (a b : Nat) (evs : List WEv)
+    (hr : WRun a b PState.created evs) (k : Nat) (img : Image)
+    (hc : CrashImage (PState.created.dir.run ((evs.flatMap (WEv.ops a b)).take k)) img) :
+    ∃ j, recover img = some j ∧ lastAcked 0 ((evs.flatMap (WEv.ops a b)).take k) ≤ j ∧
+      j ≤ lastStarted 0 ((evs.flatMap (WEv.ops a b)).take k) :=
+  C01_writer_runs_recover PState.created C01_created_inv C01_created_synced a b evs hr k img hc
+
+example : ∃ m, Op.atomicWrite META m ∈ demoTrace.take 30 ∧ m.commit = 2 := ⟨⟨2, 7, 40, [5]⟩, by decide, rfl⟩
 
 end TantivyModel.C01
